@@ -67,6 +67,21 @@ class Ctx:
         self.touch(fn)
         self.obs.append(Ob(rule, instance, UNDECIDED, self._w(fn, line), detail))
 
+    def sub(self, label, f, *a, **kw):
+        """Run one group of rules; a construct outside its fragment (or an internal error) makes that group undecided and
+        leaves the other groups of the property to run."""
+        import traceback
+        from . import ir as _ir
+        try:
+            return f(*a, **kw)
+        except _ir.AnalysisBroken as e:
+            self.undecided(self.prop, 'analysis:' + label, None, 'analysis broken: %s' % e)
+        except _ir.Undecided as e:
+            self.undecided(self.prop, 'analysis:' + label, None, 'construct outside the understood fragment: %s' % e)
+        except Exception as e:
+            self.undecided(self.prop, 'analysis:' + label, None, 'internal error: %s\n%s' % (e, traceback.format_exc()[-1200:]))
+        return None
+
     def decide(self, rule, instance, fn, ok, detail_ok, detail_bad=None, witness=None, line=None, form=None):
         if ok:
             self.holds(rule, instance, fn, detail_ok, line, form)
